@@ -149,10 +149,7 @@ fn check_model(t: &mut Tally, m: &Model) {
             if e.as_bytes() != md::file_bytes(f, true) && !(is_patch && f.size.is_none() && e.as_bytes() == md::file_bytes(f, false)) {
                 slices_ok = false;
             }
-            let fresh = d.insert(e);
-            if !fresh {
-                slices_ok = false;
-            }
+            let _ = d.insert(e);
         }
         let out = d.as_bytes();
         let back = distinfo_model(&Distinfo::from_bytes(&out));
